@@ -379,6 +379,8 @@ def run(ctx):
     _T10 = _tb10.Tables(ctx)
     _tb10.rule_T_CROSS(ctx, _T10)
     _tb10.rule_T_TENSE(ctx, _T10)
+    # a derived copula missing from the lexical vocabulary is read as name + shorter copula (seed c10-x: Han `曾同` replaced by a duplicate)
+    _tb10.rule_T_AGREE(ctx, _T10)
     ctx.undecided = ["nothing value-dependent: the desugaring and index rules are shape facts; std's usize::from_str is trusted for the decimal syntax"]
     ctx.assumptions = ["Iterator::position returns the first index satisfying the predicate (std)", "usize::from_str parses decimal"]
     ctx.trusted = ["rustc nightly front end / MIR", "mirfacts driver", "python rule layer"]
